@@ -2362,10 +2362,8 @@ class CursorResult(Result[Unpack[_Ts]]):
         return self.context.isinsert
 
     def _fetchiter_impl(self) -> Iterator[Any]:
-        fetchone = self.cursor_strategy.fetchone
-
         while True:
-            row = fetchone(self, self.cursor)
+            row = self.cursor_strategy.fetchone(self, self.cursor)
             if row is None:
                 break
             yield row
